@@ -11,7 +11,6 @@ import (
 	"flag"
 	"fmt"
 	"io/ioutil"
-	"net"
 	"os"
 	"sort"
 	"strings"
@@ -151,11 +150,9 @@ func newWorld(r *core.Rand) *world {
 	w.plain = erpc.NewPeer(erpc.PeerConfig{})
 	w.plain.SubRoute("/a").RouteCallFunc(pxy.Tbytes)
 	w.plain.SubRoute("/a").RouteCallFunc(pxy.Tjson)
-	// a port nobody listens on
-	if l, err := net.Listen("tcp", "127.0.0.1:0"); err == nil {
-		w.deadAddr = l.Addr().String()
-		l.Close()
-	}
+	// a port nobody listens on (privileged ports are never handed out as ephemeral ports, so no
+	// listener of this process can end up there)
+	w.deadAddr = "127.0.0.1:1"
 	return w
 }
 
@@ -287,6 +284,12 @@ func stepCallUnknownRoute(w *world) stepResult {
 func stepPushUnknownRoute(w *world) stepResult {
 	st := w.linkP().A.Push("/no/such/route", []byte("x"))
 	return stepResult{effective: st.OK(), async: true}
+}
+
+func stepEmptyMethod(w *world) stepResult {
+	t, s := call(w.linkP().A, "", []byte("x"), nil)
+	st := w.linkP().A.Push("", []byte("x"))
+	return stepResult{effective: s == "" && t.Code == 400 && st.OK(), async: true, note: fmt.Sprint(t, s, st)}
 }
 
 func stepCallBadBody(w *world) stepResult {
@@ -911,6 +914,7 @@ func steps() []stepDef {
 		{"call-unknown-route", 3, stepCallUnknownRoute},
 		{"push-unknown-route", 2, stepPushUnknownRoute},
 		{"call-bad-body", 3, stepCallBadBody},
+		{"empty-method", 2, stepEmptyMethod},
 		{"call-panic", 2, stepCallPanic},
 		{"push-panic", 2, stepPushPanic},
 		{"closed-session-call", 3, stepClosedSessionCall},
@@ -1105,10 +1109,13 @@ var expectProbe = map[string]int32{
 }
 
 type monitor struct {
-	sent     map[string]protos.Triple
-	probe    map[string]probeObs
-	reported map[string]bool
-	pdefs    []probeDef
+	sent      map[string]protos.Triple
+	probe     map[string]probeObs
+	probeSeq  map[string]int
+	reported  map[string]bool
+	pdefs     []probeDef
+	changeSeq int    // number of sentinel changes detected so far
+	changeBy  string // class of the operation after which the latest change was detected
 }
 
 func emitViolation(hid string, desc interface{}, fp, what string, witness interface{}) {
@@ -1118,9 +1125,9 @@ func emitViolation(hid string, desc interface{}, fp, what string, witness interf
 	core.Result(core.R{ID: rid, Verdict: core.Violated, FP: fp, What: what, Witness: witness, Desc: desc})
 }
 
-// check compares the sentinels (and the probes) with the reference; a change is reported once per
-// (name, step class) and the reference is renewed so that later, different changes are still seen.
-func (m *monitor) check(w *world, hid string, desc interface{}, stepClass string, stepIdx int, note string, history []string, withProbes bool) {
+// sentinels compares every sentinel with the reference. A change is reported once per (sentinel, class of
+// the operation that preceded it) and the reference is renewed, so that later, different changes are still seen.
+func (m *monitor) sentinels(hid string, desc interface{}, class string, stepIdx int, note string, history []string) {
 	cur := snapshot()
 	core.Add("sentinel_comparisons", int64(len(cur)))
 	var names []string
@@ -1128,49 +1135,57 @@ func (m *monitor) check(w *world, hid string, desc interface{}, stepClass string
 		names = append(names, k)
 	}
 	sort.Strings(names)
-	changed := false
 	for _, k := range names {
 		if cur[k] == m.sent[k] {
 			continue
 		}
-		changed = true
-		key := k + "/" + stepClass
+		m.changeSeq++
+		m.changeBy = class
+		key := k + "/" + class
 		if !m.reported[key] {
 			m.reported[key] = true
-			fp := fmt.Sprintf("%s/%s/%s/%s-changed", *prop, k, stepClass, diffFields(m.sent[k], cur[k]))
+			fp := fmt.Sprintf("%s/%s/%s/%s-changed", *prop, k, class, diffFields(m.sent[k], cur[k]))
 			emitViolation(hid, desc, fp,
-				fmt.Sprintf("sentinel %s was %+v, after a %q step it is %+v (every later failure sharing it reports the new values)", k, m.sent[k], stepClass, cur[k]),
-				map[string]interface{}{"sentinel": k, "before": m.sent[k], "after": cur[k], "step_class": stepClass, "step_index": stepIdx, "step_note": note, "history_so_far": history})
+				fmt.Sprintf("shared status %s was %+v, after a %q operation it is %+v (every later failure sharing it reports the new values)", k, m.sent[k], class, cur[k]),
+				map[string]interface{}{"sentinel": k, "before": m.sent[k], "after": cur[k], "operation_class": class, "step_index": stepIdx, "step_note": note, "history_so_far": history})
 		}
 		m.sent[k] = cur[k]
 	}
-	if !withProbes && !changed {
-		return
-	}
+}
+
+// check runs after every history step: sentinels first (attributed to the step), then the fixed failure probes;
+// a probe is a failing operation itself, so the sentinels are compared again after each one (attributed to the probe).
+func (m *monitor) check(w *world, hid string, desc interface{}, stepClass string, stepIdx int, note string, history []string) {
+	m.sentinels(hid, desc, stepClass, stepIdx, note, history)
 	for _, pd := range m.pdefs {
 		o := pd.fn(w)
 		core.Add("probe_evaluations", 1)
 		if o.Stuck != "" {
 			core.Add("probes_inconclusive", 1)
+			m.sentinels(hid, desc, "probe:"+pd.name, stepIdx, "", history)
 			continue
 		}
 		ref, ok := m.probe[pd.name]
 		if !ok {
-			m.probe[pd.name] = o
-			continue
+			m.probe[pd.name], m.probeSeq[pd.name] = o, m.changeSeq
+		} else if probeKey(ref) != probeKey(o) {
+			// blame the operation after which a shared status was last seen changing, if that happened since this
+			// probe last agreed with its reference; otherwise the step that has just run
+			by := stepClass
+			if m.changeSeq > m.probeSeq[pd.name] {
+				by = m.changeBy
+			}
+			key := "probe:" + pd.name + "/" + by
+			if !m.reported[key] {
+				m.reported[key] = true
+				fp := fmt.Sprintf("%s/probe:%s/%s/%s-changed", *prop, pd.name, by, diffFields(probeKey(ref), probeKey(o)))
+				emitViolation(hid, desc, fp,
+					fmt.Sprintf("failure probe %s observed %+v %s before, %+v %s after a %q operation", pd.name, ref.Triple, ref.Extra, o.Triple, o.Extra, by),
+					map[string]interface{}{"probe": pd.name, "before": ref, "after": o, "operation_class": by, "step_class": stepClass, "step_index": stepIdx, "step_note": note, "history_so_far": history})
+			}
+			m.probe[pd.name], m.probeSeq[pd.name] = o, m.changeSeq
 		}
-		if probeKey(ref) == probeKey(o) {
-			continue
-		}
-		key := "probe:" + pd.name + "/" + stepClass
-		if !m.reported[key] {
-			m.reported[key] = true
-			fp := fmt.Sprintf("%s/probe:%s/%s/%s-changed", *prop, pd.name, stepClass, diffFields(probeKey(ref), probeKey(o)))
-			emitViolation(hid, desc, fp,
-				fmt.Sprintf("failure probe %s observed %+v %s before, %+v %s after a %q step", pd.name, ref.Triple, ref.Extra, o.Triple, o.Extra, stepClass),
-				map[string]interface{}{"probe": pd.name, "before": ref, "after": o, "step_class": stepClass, "step_index": stepIdx, "step_note": note, "history_so_far": history})
-		}
-		m.probe[pd.name] = o
+		m.sentinels(hid, desc, "probe:"+pd.name, stepIdx, "", history)
 	}
 }
 
@@ -1209,7 +1224,7 @@ func main() {
 	}
 
 	// start-of-process reference: sentinels first, then the probes in a pristine process
-	m := &monitor{sent: snapshot(), probe: map[string]probeObs{}, reported: map[string]bool{}, pdefs: probes()}
+	m := &monitor{sent: snapshot(), probe: map[string]probeObs{}, probeSeq: map[string]int{}, reported: map[string]bool{}, pdefs: probes()}
 	for k, v := range m.sent {
 		core.Distinct("sentinels", k)
 		_ = v
@@ -1217,7 +1232,7 @@ func main() {
 	w := newWorld(core.NewRand(*seed, int64(*batch), 15))
 	w.hbFixture()
 	core.Begin("baseline", map[string]interface{}{"class": "baseline-probes"})
-	m.check(w, "baseline", map[string]interface{}{"class": "baseline-probes"}, "process-start", -1, "", nil, true)
+	m.check(w, "baseline", map[string]interface{}{"class": "baseline-probes"}, "process-start", -1, "", nil)
 	bad := ""
 	for name, want := range expectProbe {
 		if o, ok := m.probe[name]; !ok || o.Triple.Code != want {
@@ -1282,7 +1297,7 @@ func main() {
 			if res.async {
 				pxy.Settle(3*time.Second, 3, nil)
 			}
-			m.check(w, hid, desc, d.class, i, res.note, classes[:i+1], true)
+			m.check(w, hid, desc, d.class, i, res.note, classes[:i+1])
 			prev = d.class
 		}
 		if ineffective*4 > nSteps {
